@@ -32,6 +32,14 @@ def generate(rng, tier):
             p, nd = rng.choice(cands)
             c = replace_at(c, p, [nd[0], nd[1], e_str(rng.choice(BAD))])
         out.append(c)
+    # a derived table that repeats an inherited slot with another (or a forgotten) convention
+    from .c06 import mutate_derived
+    o2 = gen.Opts(p_vftable=0.7, p_base=0.8, p_cc=0.7, p_enum=0.0, p_impl=0.1, p_backend=0.0, p_extern_val=0.0,
+                  max_modules=2, max_items=6, max_fields=2, p_packed=0.0)
+    for i in range(n // 3):
+        m = mutate_derived(rng, gen.world(rng, 'inh%d' % i, opts=o2), kinds=('cc',))
+        if m is not None:
+            out.append(m)
     return out
 
 ABI_RE = re.compile(r'^unsafe extern "([^"]*)" fn\(')
@@ -115,6 +123,12 @@ def judge(c, impl, model):
                     checked += 1
                     if i >= len(df) or df[i][0] != n or abi_of(df[i][2]) != abi_of(ty):
                         fs.append(Finding('O', 'C16/inherited-slot-convention', cid, '%s slot %d %s' % (def_name(d), i, n)))
+    if find(c, 'expect') is not None:
+        count(info, 'inherited-slot-with-other-convention')
+        if cls == 'ok':
+            fs.append(Finding('O', 'C16/inherited-slot-convention-changed-accepted', cid, ''))
+        else:
+            info['nontrivial'] = True
     if any_bad:
         count(info, 'unknown-convention')
         if cls == 'ok':
